@@ -22,6 +22,7 @@ structure Params where
   emptyReplyCached : Bool
   midGuard : Nat
   midJump : Nat
+  midJumpOnNon : Bool := false
 
 /-- A cached reply (the marshalled response message) and its deadline. -/
 structure CEntry where
@@ -80,11 +81,13 @@ def store (c : List (Nat × CEntry)) (now key : Nat) (e : CEntry) : List (Nat ×
 def sweep (c : List (Nat × CEntry)) (now : Nat) : List (Nat × CEntry) :=
   c.filter (fun p => now ≤ p.2.validUntil)
 
-/-- `checkMyMessageID` (in `Process`, confirmable messages only; one jump always suffices). -/
+/-- `checkMyMessageID` (in `Process`; for confirmable messages and — `midJumpOnNon`, repair F37 — non-confirmable ones: both
+    carry a message ID of the peer's own; one jump always suffices). -/
 def checkMyMessageID (P : Params) (typ : RType) (mid msgID : Nat) : Nat :=
+  let moved := if u16 (mid + 65536 - u16 msgID) ≥ P.midGuard then msgID else u32 (msgID + P.midJump)
   match typ with
-  | .con => if u16 (mid + 65536 - u16 msgID) ≥ P.midGuard then msgID else u32 (msgID + P.midJump)
-  | .non => msgID
+  | .con => moved
+  | .non => if P.midJumpOnNon then moved else msgID
 
 def digits (n : Nat) : List UInt8 := (Nat.repr n).toList.map (fun c => UInt8.ofNat c.toNat)
 
@@ -184,7 +187,7 @@ def runFrom (P : Params) (s : State) (evs : List Ev) : State := evs.foldl (fun s
 /-- Parameters as the code has them today (regenerated from /repo on every run). -/
 def params : Params :=
   ⟨Generated.Dedup.exchangeLifetimeNs, Generated.Dedup.storeKeyIsRequestMID, Generated.Dedup.emptyReplyCached,
-   Generated.Dedup.midGuard, Generated.Dedup.midJump⟩
+   Generated.Dedup.midGuard, Generated.Dedup.midJump, Generated.Dedup.midJumpOnNon⟩
 
 def run (msgID : Nat) (evs : List Ev) : State := runFrom params (init msgID) evs
 
